@@ -14,7 +14,7 @@ classes (2) observed for it; those are the open findings of known_findings.d/C04
 import os, sys, random, collections, json, hashlib
 import vlib, progen, langlib, lang_findings
 import tc_common as T
-import c02, c05, c04_matrix, c04_ident, c04_tails, scope_witnesses
+import c02, c05, c04_matrix, c04_ident, c04_tails, c04_typegraph, scope_witnesses
 
 
 def hand_witnesses():
@@ -146,6 +146,9 @@ def run(ck):
         # ---- 1d. function tails: non-void/void functions and main ending in every control construct whose paths all return
         for key, what, rep in c04_tails.run_tails(ck, b, probe, wd, ck.thorough):
             ck.fail(key, what, rep)
+        # ---- 1e. type declaration graphs: composite types in every declaration order
+        for key, what, rep in c04_typegraph.run_typegraph(ck, b, probe, wd, ck.thorough):
+            ck.fail(key, what, rep)
         # ---- 2. generated well-typed programs: acceptance on both sides, then both real backends
         cfg = c02.stream_cfg(ck)
         nprog = 120 if ck.thorough else 32
@@ -251,7 +254,7 @@ def run(ck):
         ck.extra[k] = dict(ck.extra[k])
     ck.extra['programs'] = nprog
     ck.extra['mutants'] = len(items)
-    ck.cov['rule'] = ('witness programs of every recorded finding; the construct x context matrix (c04_matrix.py: builtins, enum operands, structs/tuples/match in 11 contexts) the function-tail axis (c04_tails.py: 13 tails whose paths all return x int/bool/string/struct/array/void results and main itself) and the identifier-spelling axis (c04_ident.py: 10 binding positions x 101 spellings hostile to the emitted C), every accepted cell on both real backends; type-directed random well-typed programs (progen, prefix/infix/mixed spelling) checked by the '
+    ck.cov['rule'] = ('witness programs of every recorded finding; the construct x context matrix (c04_matrix.py: builtins, enum operands, structs/tuples/match in 11 contexts) the type-declaration-graph axis (c04_typegraph.py: 16 dependency shapes of 2-5 composite types in every declaration order), the function-tail axis (c04_tails.py: 13 tails whose paths all return x int/bool/string/struct/array/void results and main itself) and the identifier-spelling axis (c04_ident.py: 10 binding positions x 101 spellings hostile to the emitted C), every accepted cell on both real backends; type-directed random well-typed programs (progen, prefix/infix/mixed spelling) checked by the '
                       'extracted reference checker, the real front end and BOTH real backends (nano_virt --run; nanoc + the binary); all catalogue mutants of a '
                       'subset of them (ill-typed by theorem) checked by the real front end, and a sample per class of accepted ones run on both backends.  '
                       'non-trivial = a program that went through both real backends, or a mutant on which both checkers agree (rejected); distinct = distinct program')
